@@ -60,6 +60,9 @@ def stage_of(exc):
 def exc_key(exc):
     msg = str(exc)
     msg = re.sub(r"\(line \d+:\d+\)", "(line L:C)", msg)
+    msg = re.sub(r"'[^']*'", "'S'", msg)
+    msg = re.sub(r'"[^"]*"', "'S'", msg)
+    msg = re.sub(r"\b(var|Var|variable|array|Array var) \w+", r"\1 X", msg)
     msg = re.sub(r"\d+(\.\d+)?", "N", msg)
     return "%s@%s:%s" % (type(exc).__name__, stage_of(exc), msg[:60])
 
